@@ -1,6 +1,11 @@
 package codegen
 
-import "github.com/HobbyOSs/gosk/pkg/ocode"
+import (
+	"fmt"
+	"strconv"
+
+	"github.com/HobbyOSs/gosk/pkg/ocode"
+)
 
 // opcodeMapRET はRET命令のオペコードを定義します。
 var opcodeMapRET = map[ocode.OcodeKind]byte{
@@ -10,6 +15,14 @@ var opcodeMapRET = map[ocode.OcodeKind]byte{
 // handleRET はRET命令のOcodeを処理し、対応するx86機械語を生成します。
 func handleRET(ocode ocode.Ocode) ([]byte, error) {
 	var binary []byte
+	if len(ocode.Operands) == 1 {
+		// RET imm16
+		n, err := strconv.ParseUint(ocode.Operands[0], 10, 16)
+		if err != nil {
+			return nil, fmt.Errorf("invalid operand for RET: %s", ocode.Operands[0])
+		}
+		return []byte{0xc2, byte(n), byte(n >> 8)}, nil
+	}
 	if code, exists := opcodeMapRET[ocode.Kind]; exists {
 		binary = append(binary, code)
 	}
